@@ -428,7 +428,7 @@ func (a *errAnalysis) function(b *ob, fn *ssa.Function, props []string) {
 						}
 						report(root, fmt.Sprintf("%s: the error of %s is never examined on a path to the return at %s", name, site[root].callee, c.InstrPos(x)))
 					case 2:
-						if errOp != nil && isNilConst(errOp) {
+						if errOp != nil && (isNilConst(errOp) || provenNilAt(errOp, blk)) {
 							report(root, fmt.Sprintf("%s: the error of %s is known to be non-nil (tested, then control leaves the loop/branch) but the return at %s reports nil", name, site[root].callee, c.InstrPos(x)))
 						} else if errOp == nil {
 							// no error result: the test mapped it to another result
@@ -456,6 +456,16 @@ func (a *errAnalysis) function(b *ob, fn *ssa.Function, props []string) {
 				if _, tracked := st[*op]; tracked {
 					if ex, isEx := ins.(*ssa.Extract); isEx && ssa.Value(ex) == *op {
 						continue
+					}
+					// recording the error in the receiver's sticky field (enc.err = err) tells
+					// the *next* call, not this caller: it does not discharge a method that
+					// itself returns an error
+					if sto, isStore := ins.(*ssa.Store); isStore && fnErrIdx >= 0 && sto.Val == *op && st[*op] == 2 {
+						if fa, isFA := sto.Addr.(*ssa.FieldAddr); isFA && len(fn.Params) > 0 && fn.Signature.Recv() != nil {
+							if base, isP := fa.X.(*ssa.Parameter); isP && base == fn.Params[0] {
+								continue
+							}
+						}
 					}
 					// TypeAssert / comparisons with sentinels / calls / stores: consumed
 					delete(st, *op)
@@ -618,4 +628,28 @@ func errDropLookup(k string) string {
 		return v
 	}
 	return errDropTable[closureIndex.ReplaceAllString(k, "$")]
+}
+
+// provenNilAt: blk is dominated by the nil side of a nil test of v (the function returns another
+// error variable that was checked earlier on this path: it reports success).
+func provenNilAt(v ssa.Value, blk *ssa.BasicBlock) bool {
+	for _, e := range dominatingEdges(blk) {
+		bo, ok := e.ifi.Cond.(*ssa.BinOp)
+		if !ok {
+			continue
+		}
+		var x ssa.Value
+		if isNilConst(bo.Y) {
+			x = bo.X
+		} else if isNilConst(bo.X) {
+			x = bo.Y
+		}
+		if x != v {
+			continue
+		}
+		if (bo.Op == token.NEQ && e.succ == 1) || (bo.Op == token.EQL && e.succ == 0) {
+			return true
+		}
+	}
+	return false
 }
